@@ -18,6 +18,7 @@ from __future__ import annotations
 
 import copy
 import json
+import os
 import time
 import warnings
 from typing import Optional
@@ -839,8 +840,27 @@ def run(chk: Check) -> None:
     process(fn_chunk)
     gen = progs.export_in_chunks(plan, max_models=250, max_bytes=400_000_000, deadline=t0 + budget,
                                  after=grab_snapshot)
+    mem_stop = None
     for chunk in gen:
         process(chunk)
+        # JAX / onnxruntime keep compiled artefacts per exported program: the resident set grows with the number
+        # of models (≈ 60 GB after 2 200 models; the kernel killed two thorough runs). Stop exploring further
+        # chunks once a memory budget is reached — what was explored is reported as such.
+        try:
+            import resource, gc
+            gc.collect()
+            rss_gb = resource.getrusage(resource.RUSAGE_SELF).ru_maxrss / 1e6
+            with open("/proc/self/statm") as fh:
+                rss_gb = int(fh.read().split()[1]) * os.sysconf("SC_PAGE_SIZE") / 1e9
+        except Exception:  # noqa: BLE001
+            rss_gb = 0.0
+        if rss_gb > float(os.environ.get("C08_MAX_RSS_GB", "14")):
+            mem_stop = {"resident_gb": round(rss_gb, 1), "models_processed": n_done, "planned": len(plan)}
+            chk.log(f"memory budget reached ({rss_gb:.1f} GB resident): exploration stops after {n_done} of "
+                    f"{len(plan)} planned models")
+            break
+    if mem_stop:
+        chk.info("stopped_by_memory_budget", mem_stop)
     _restore()
     chk.coverage["programs"] = n_done
     chk.info("exports", {"planned": len(plan), "exported": n_done, "export_raised": raised})
